@@ -7,6 +7,7 @@ use std::borrow::Cow;
 use std::ops::Deref;
 use std::io::{Read, Seek};
 use std::str::FromStr;
+use std::collections::HashMap;
 
 verus! {
 
@@ -293,6 +294,11 @@ pub open spec fn n_t() -> Seq<u8> { seq![0x74u8] }
 pub open spec fn n_rph() -> Seq<u8> { seq![0x72u8, 0x50u8, 0x68u8] }
 pub open spec fn n_si() -> Seq<u8> { seq![0x73u8, 0x69u8] }
 pub open spec fn n_sst() -> Seq<u8> { seq![0x73u8, 0x73u8, 0x74u8] }
+/// extensional and structural equality coincide (hint for the solver: the code compares bytes, the specification compares names)
+proof fn lemma_t_names(t: Seq<u8>)
+    ensures (t =~= n_s()) == (t == n_s()), (t =~= n_b()) == (t == n_b()), (t =~= n_e()) == (t == n_e()), (t =~= n_d()) == (t == n_d()),
+        (t =~= n_str()) == (t == n_str()), (t =~= n_n()) == (t == n_n()), (t =~= n_is()) == (t == n_is()),
+{}
 proof fn lemma_type_names_distinct()
     ensures n_s() != n_b(), n_s() != n_e(), n_s() != n_d(), n_s() != n_n(), n_b() != n_e(), n_b() != n_d(), n_b() != n_n(),
         n_e() != n_d(), n_e() != n_n(), n_d() != n_n(), n_str().len() == 3, n_is().len() == 2, n_s().len() == 1, n_b().len() == 1,
@@ -592,7 +598,6 @@ proof fn witness_rst_none()
                     assert(ev[pos].kind is Start);
                     assert(e.ev() == ev[pos]);
                     assert(e.ev().local() =~= n_t());
-                    assert(!is_phonetic_text);
                     if good {
                         assert(!st0.in_t);
                         assert(st0.skip == 0);
@@ -1246,20 +1251,17 @@ map_err(|e| XlsxError::ParseFloat(e))
 //@@ body
     proof { axiom_bytelits(); lemma_type_names_distinct(); }
 //@@ before /let idx = atoi_simd/
-            proof { assert(__t@ =~= n_s()); assert(!t_is(c_element.ev().attrs, n_d())); }
+            proof { lemma_t_names(__t@); }
 //@@ before /Ok\(DataRef::Bool/
             proof {
-                assert(__t@ =~= n_b()); assert(!t_is(c_element.ev().attrs, n_d()));
+                lemma_t_names(__t@);
                 reveal_strlit("0"); reveal_strlit("1");
                 assert("0"@.len() == 1 && "1"@.len() == 1 && "0"@[0] != "1"@[0]);
             }
 //@@ before /Ok\(DataRef::Error/
-            proof { assert(__t@ =~= n_e()); assert(!t_is(c_element.ev().attrs, n_d())); }
+            proof { lemma_t_names(__t@); }
 //@@ before /Ok\(DataRef::DateTimeIso\(v\)\)/
-            proof {
-                assert(__t@ =~= n_d());
-                assert(t_is(c_element.ev().attrs, n_d()));
-            }
+            proof { lemma_t_names(__t@); }
 //@@ closure 0
     -> (res: DataRef<'static>) ensures res == num_value(n, match cell_format { Some(f) => Some(*f), None => None }, is_1904)
 //@@ closure 1
@@ -1286,7 +1288,7 @@ pub open spec fn txt_scan(ev: Seq<Ev>, i: int, name: Seq<u8>, acc: Seq<char>) ->
 }
 proof fn lemma_txt_end(ev: Seq<Ev>, i: int, name: Seq<u8>, acc: Seq<char>)
     requires 0 <= i, txt_scan(ev, i, name, acc).ok,
-    ensures i <= txt_scan(ev, i, name, acc).end < ev.len(),
+    ensures i <= txt_scan(ev, i, name, acc).end < ev.len(), ev[txt_scan(ev, i, name, acc).end].kind is End,
     decreases ev.len() - i,
 {
     if i < ev.len() {
@@ -1351,7 +1353,8 @@ __n if __n == b"f" =>
                     ev == old(xml).events(), p0 == old(xml).pos(), xml.events() == ev, xml.pos() >= p0,
                     tot == txt_scan(ev, p0, e.ev().name, Seq::empty()),
                     good == (tot.ok && no_cdata(ev, p0, tot.end)),
-                    good ==> xml.pos() <= tot.end + 1 && tot.end < ev.len(),
+                    good ==> xml.pos() <= tot.end + 1 && tot.end < ev.len() && ev[tot.end].kind is End,
+                    e.ev().local() =~= n_v(), !(n_v() =~= n_is()), !(n_v() =~= n_f()),
                 ensures
                     good ==> v@ == tot.text && xml.pos() == tot.end + 1,
                 decreases xml.left(),
@@ -1359,5 +1362,358 @@ __n if __n == b"f" =>
                 let ghost pos = xml.pos() as int;
                 proof { if good { lemma_txt_end(ev, pos, e.ev().name, v@); assert(!(ev[pos].kind is CData)); } }
 //@@ end
+
+// =====================================================================================================================
+// C01 -- the cell stream of a worksheet.  ECMA-376 18.3.1.80 sheetData (row*), 18.3.1.73 row (c*, optional attribute r = 1-based
+// row number), 18.3.1.4 c (optional attribute r = A1 reference).  "If r is omitted, the cell/row is the one following the previous
+// cell/row": the position of a cell is its `r` attribute if present, else the running cursor (row_index, col_index).
+// =====================================================================================================================
+//@@ item src/lib.rs trait "trait CellType"
+impl<'a> CellType for DataRef<'a> {}
+//@@ item src/lib.rs struct Cell
+impl<T: CellType> Cell<T> {
+    pub closed spec fn p(&self) -> (u32, u32) { self.pos }
+    pub closed spec fn v(&self) -> T { self.val }
+}
+//@@ impl src/lib.rs Cell
+//@@ fn src/lib.rs Cell::new props=C01 ret=c
+//@@ sig
+    ensures
+        //# C01.cell_new
+        c.p() == position && c.v() == value,
+//@@ end
+//@@ endimpl
+//@@ item src/xlsx/cells_reader.rs type FormulaMap
+//@@ item src/xlsx/cells_reader.rs struct XlsxCellReader
+
+impl<'a> XlsxCellReader<'a> {
+    pub closed spec fn g_events(&self) -> Seq<Ev> { self.xml.events() }
+    pub closed spec fn g_pos(&self) -> nat { self.xml.pos() }
+    pub closed spec fn g_cur(&self) -> Cur { Cur { row: self.row_index as int, col: self.col_index as int } }
+    pub closed spec fn g_cx(&self) -> ShCtx { ShCtx { strings: self.strings@, formats: self.formats@, is_1904: self.is_1904 } }
+}
+pub ghost struct ShCtx { pub strings: Seq<String>, pub formats: Seq<CellFormat>, pub is_1904: bool }
+pub ghost struct CellRes { pub ok: bool, pub val: DV, pub end: int }
+pub open spec fn cell_bad(i: int) -> CellRes { CellRes { ok: false, val: DV::Empty, end: i } }
+/// content of a `c` element from ev[i] on: CT_Cell = f?, v?, is? -- the value comes from `v` (typed by the cell's t / s attributes)
+/// or from `is` (inline string); `f` carries no value; `seen`: a v / is child has been met
+pub open spec fn cell_scan(ev: Seq<Ev>, i: int, cattrs: Seq<Attr>, cur: DV, seen: bool, cx: ShCtx) -> CellRes
+    decreases ev.len() - i
+{
+    if i < 0 || i >= ev.len() { cell_bad(i) }
+    else {
+        let e = ev[i];
+        if e.kind is Error { cell_bad(i) }
+        else if e.kind is Start {
+            if e.local() =~= n_v() {
+                let tx = txt_scan(ev, i + 1, e.name, Seq::empty());
+                let ty = typed_dv(cattrs, tx.text, cx.strings, cx.formats, cx.is_1904);
+                if !seen && tx.ok && i < tx.end < ev.len() && ty is Some { cell_scan(ev, tx.end + 1, cattrs, ty->Some_0, true, cx) } else { cell_bad(i) }
+            } else if e.local() =~= n_is() {
+                let it = rst_item(ev, i + 1, e.name);
+                if !seen && it.ok && i < it.end < ev.len() { cell_scan(ev, it.end + 1, cattrs, inline_dv(it.text), true, cx) } else { cell_bad(i) }
+            } else if e.local() =~= n_f() {
+                let k = rte_stop(ev, i + 1, e.name, 0);
+                if !seen && i < k < ev.len() && ev[k].kind is End { cell_scan(ev, k + 1, cattrs, cur, seen, cx) } else { cell_bad(i) }
+            } else { cell_bad(i) }
+        } else if e.kind is End {
+            if e.local() =~= n_c() { CellRes { ok: true, val: cur, end: i } } else { cell_bad(i) }
+        } else { cell_scan(ev, i + 1, cattrs, cur, seen, cx) }
+    }
+}
+pub ghost struct Cur { pub row: int, pub col: int }
+pub ghost struct NextRes { pub ok: bool, pub cell: Option<((int, int), DV)>, pub cur: Cur, pub end: int }
+pub open spec fn next_bad(i: int, cur: Cur) -> NextRes { NextRes { ok: false, cell: None, cur: cur, end: i } }
+/// what the next call of the cell iterator delivers when the reader stands at ev[i] inside sheetData with cursor `cur`:
+/// the next cell (position, value), the cursor after it and the index of the last event consumed; cell None: end of sheetData
+pub open spec fn next_scan(ev: Seq<Ev>, i: int, cur: Cur, cx: ShCtx) -> NextRes
+    decreases ev.len() - i
+{
+    if i < 0 || i >= ev.len() { next_bad(i, cur) }
+    else {
+        let e = ev[i];
+        if e.kind is Error { next_bad(i, cur) }
+        else if e.kind is Start {
+            if e.local() =~= n_row() {
+                match attr_scan(e.attrs, n_r()) {
+                    AttrLookup::Found(raw) => match row_of(raw) { Some(r) => next_scan(ev, i + 1, Cur { row: r as int, col: cur.col }, cx), None => next_bad(i, cur) },
+                    AttrLookup::Absent => next_scan(ev, i + 1, cur, cx),
+                    AttrLookup::Malformed => next_bad(i, cur),
+                }
+            } else if e.local() =~= n_c() {
+                let pos: Option<(int, int)> = match attr_scan(e.attrs, n_r()) {
+                    AttrLookup::Found(raw) => match cell_of(raw) { Some(p) => Some((p.0 as int, p.1 as int)), None => None },
+                    AttrLookup::Absent => Some((cur.row, cur.col)),
+                    AttrLookup::Malformed => None,
+                };
+                let cs = cell_scan(ev, i + 1, e.attrs, DV::Empty, false, cx);
+                if pos is Some && cs.ok && i < cs.end < ev.len() && pos->Some_0.1 + 1 <= u32::MAX {
+                    NextRes { ok: true, cell: Some((pos->Some_0, cs.val)), cur: Cur { row: cur.row, col: pos->Some_0.1 + 1 }, end: cs.end }
+                } else { next_bad(i, cur) }
+            } else { next_bad(i, cur) }
+        } else if e.kind is End {
+            if e.local() =~= n_row() { if cur.row + 1 <= u32::MAX { next_scan(ev, i + 1, Cur { row: cur.row + 1, col: 0 }, cx) } else { next_bad(i, cur) } }
+            else if e.local() =~= n_sheetdata() { NextRes { ok: true, cell: None, cur: cur, end: i } }
+            else { next_bad(i, cur) }
+        } else { next_scan(ev, i + 1, cur, cx) }
+    }
+}
+/// every inline-string start tag `is` is written without namespace prefix
+pub open spec fn is_unprefixed(ev: Seq<Ev>) -> bool {
+    forall|k: int| 0 <= k < ev.len() && (#[trigger] ev[k]).kind is Start && ev[k].local() =~= n_is() ==> unprefixed(ev[k].name)
+}
+proof fn lemma_cell_end(ev: Seq<Ev>, i: int, cattrs: Seq<Attr>, cur: DV, seen: bool, cx: ShCtx)
+    requires 0 <= i, cell_scan(ev, i, cattrs, cur, seen, cx).ok,
+    ensures i <= cell_scan(ev, i, cattrs, cur, seen, cx).end < ev.len(),
+    decreases ev.len() - i,
+{
+    if i < ev.len() {
+        let e = ev[i];
+        if e.kind is Start {
+            if e.local() =~= n_v() {
+                let tx = txt_scan(ev, i + 1, e.name, Seq::empty());
+                lemma_cell_end(ev, tx.end + 1, cattrs, typed_dv(cattrs, tx.text, cx.strings, cx.formats, cx.is_1904)->Some_0, true, cx);
+            } else if e.local() =~= n_is() {
+                let it = rst_item(ev, i + 1, e.name);
+                lemma_cell_end(ev, it.end + 1, cattrs, inline_dv(it.text), true, cx);
+            } else if e.local() =~= n_f() {
+                lemma_cell_end(ev, rte_stop(ev, i + 1, e.name, 0) + 1, cattrs, cur, seen, cx);
+            }
+        } else if !(e.kind is End) { lemma_cell_end(ev, i + 1, cattrs, cur, seen, cx); }
+    }
+}
+proof fn lemma_next_end(ev: Seq<Ev>, i: int, cur: Cur, cx: ShCtx)
+    requires 0 <= i, next_scan(ev, i, cur, cx).ok,
+    ensures i <= next_scan(ev, i, cur, cx).end < ev.len(),
+    decreases ev.len() - i,
+{
+    if i < ev.len() {
+        let e = ev[i];
+        if e.kind is Start {
+            if e.local() =~= n_row() {
+                match attr_scan(e.attrs, n_r()) {
+                    AttrLookup::Found(raw) => { lemma_next_end(ev, i + 1, Cur { row: row_of(raw)->Some_0 as int, col: cur.col }, cx); }
+                    AttrLookup::Absent => { lemma_next_end(ev, i + 1, cur, cx); }
+                    _ => {}
+                }
+            }
+        } else if e.kind is End {
+            if e.local() =~= n_row() { lemma_next_end(ev, i + 1, Cur { row: cur.row + 1, col: 0 }, cx); }
+        } else { lemma_next_end(ev, i + 1, cur, cx); }
+    }
+}
+
+proof fn lemma_row_1(d: u8)
+    requires 0x31 <= d <= 0x39,
+    ensures row_of(seq![d]) == Some((d - 0x31) as u32),
+{
+    reveal(row_of);
+    let s = seq![d];
+    assert(s.subrange(0, 0) =~= Seq::<u8>::empty());
+    assert(s.subrange(0, 1) =~= s);
+    assert(s.drop_last() =~= Seq::<u8>::empty());
+    assert(dec10(s) == (d - 0x30) as nat) by { reveal_with_fuel(dec10, 2); }
+    assert(a1_rowref(s, 0));
+    let m = choose|m: int| a1_rowref(s, m);
+    if m != 0 { assert(m == 1); assert(s.subrange(1, 1) =~= Seq::<u8>::empty()); assert(dec10(s.subrange(1, 1)) == 0); }
+}
+/// witness / sanity: <row r="3"><c r="B3" t="b"><v>1</v></c> read with cursor (0,0) delivers the cell (2,1) = Bool(true), cursor (2,2)
+proof fn witness_next_scan(cx: ShCtx)
+    ensures ({
+        let ra = Attr { key: n_r(), raw: seq![0x33u8], val: Seq::empty(), val_ok: true, err: false };
+        let ca = Attr { key: n_r(), raw: seq![0x42u8, 0x33u8], val: Seq::empty(), val_ok: true, err: false };
+        let ta = Attr { key: n_t(), raw: n_b(), val: Seq::empty(), val_ok: true, err: false };
+        let ev = seq![Ev { attrs: seq![ra], ..ev_start(n_row()) }, Ev { attrs: seq![ca, ta], ..ev_start(n_c()) },
+                      ev_start(n_v()), ev_text("1"@), ev_end(n_v()), ev_end(n_c())];
+        let nx = next_scan(ev, 0, Cur { row: 0, col: 0 }, cx);
+        nx.ok && nx.cell == Some(((2int, 1int), DV::Bool(true))) && nx.cur == (Cur { row: 2, col: 2 }) && nx.end == 5
+            && is_unprefixed(ev) && no_cdata(ev, 0, nx.end) }),
+{
+    let ra = Attr { key: n_r(), raw: seq![0x33u8], val: Seq::empty(), val_ok: true, err: false };
+    let ca = Attr { key: n_r(), raw: seq![0x42u8, 0x33u8], val: Seq::empty(), val_ok: true, err: false };
+    let ta = Attr { key: n_t(), raw: n_b(), val: Seq::empty(), val_ok: true, err: false };
+    let cattrs = seq![ca, ta];
+    let ev = seq![Ev { attrs: seq![ra], ..ev_start(n_row()) }, Ev { attrs: cattrs, ..ev_start(n_c()) },
+                  ev_start(n_v()), ev_text("1"@), ev_end(n_v()), ev_end(n_c())];
+    lemma_local_no_colon(n_row(), 0); lemma_local_no_colon(n_c(), 0); lemma_local_no_colon(n_v(), 0);
+    lemma_type_names_distinct();
+    assert(n_row().len() != n_c().len() && n_c()[0] != n_v()[0] && n_v().len() != n_is().len() && n_v().len() != n_row().len());
+    assert(n_c()[0] != n_v()[0] && n_c().len() != n_is().len() && n_c()[0] != n_f()[0]);
+    assert(n_r()[0] != n_t()[0]);
+    lemma_row_1(0x33u8);
+    lemma_cell_2(0x42u8, 0x33u8);
+    // attributes
+    assert(attr_scan(seq![ra], n_r()) == AttrLookup::Found(seq![0x33u8])) by { reveal_with_fuel(attr_scan, 2); }
+    assert(cattrs.skip(1) =~= seq![ta]);
+    assert(attr_scan(cattrs, n_r()) == AttrLookup::Found(seq![0x42u8, 0x33u8])) by { reveal_with_fuel(attr_scan, 2); }
+    assert(attr_scan(cattrs, n_t()) == AttrLookup::Found(n_b())) by { reveal_with_fuel(attr_scan, 3); }
+    // the v element
+    reveal_strlit("1"); reveal_strlit("0");
+    assert(Seq::<char>::empty() + "1"@ =~= "1"@);
+    assert(txt_scan(ev, 3, n_v(), Seq::empty()) == (TxtRes { ok: true, text: "1"@, end: 4 })) by { reveal_with_fuel(txt_scan, 3); }
+    assert(!("1"@ =~= "0"@)) by { assert("1"@[0] != "0"@[0]); }
+    assert(typed_dv(cattrs, "1"@, cx.strings, cx.formats, cx.is_1904) == Some(DV::Bool(true)));
+    assert(cell_scan(ev, 2, cattrs, DV::Empty, false, cx) == (CellRes { ok: true, val: DV::Bool(true), end: 5 })) by { reveal_with_fuel(cell_scan, 3); }
+    reveal_with_fuel(next_scan, 3);
+    assert(n_v().len() != n_is().len());
+}
+
+//@@ impl src/xlsx/cells_reader.rs XlsxCellReader
+//@@ fn src/xlsx/cells_reader.rs XlsxCellReader::next_cell props=C01 entry ret=r
+//@@ sig
+    ensures
+        //# C01.cells_reader_frame
+        final(self).g_events() == old(self).g_events() && final(self).g_pos() >= old(self).g_pos() && final(self).g_cx() == old(self).g_cx(),
+        //# C01.cell_position
+        ({ let ev = old(self).g_events();
+           let nx = next_scan(ev, old(self).g_pos() as int, old(self).g_cur(), old(self).g_cx());
+           nx.ok && nx.cell is Some && is_unprefixed(ev) && no_cdata(ev, old(self).g_pos() as int, nx.end) ==>
+               (r matches Ok(Some(c)) && c.p().0 == nx.cell->Some_0.0.0 && c.p().1 == nx.cell->Some_0.0.1) }),
+        //# C01,C10.cell_value
+        ({ let ev = old(self).g_events();
+           let nx = next_scan(ev, old(self).g_pos() as int, old(self).g_cur(), old(self).g_cx());
+           nx.ok && nx.cell is Some && is_unprefixed(ev) && no_cdata(ev, old(self).g_pos() as int, nx.end) ==>
+               (r matches Ok(Some(c)) && dv(c.v()) == nx.cell->Some_0.1) }),
+        //# C01.cursor_update
+        ({ let ev = old(self).g_events();
+           let nx = next_scan(ev, old(self).g_pos() as int, old(self).g_cur(), old(self).g_cx());
+           nx.ok && is_unprefixed(ev) && no_cdata(ev, old(self).g_pos() as int, nx.end) ==>
+               final(self).g_cur() == nx.cur && final(self).g_pos() == nx.end + 1 }),
+        //# C01.end_of_sheet_data
+        ({ let ev = old(self).g_events();
+           let nx = next_scan(ev, old(self).g_pos() as int, old(self).g_cur(), old(self).g_cx());
+           nx.ok && nx.cell is None && is_unprefixed(ev) && no_cdata(ev, old(self).g_pos() as int, nx.end) ==> r matches Ok(None) }),
+//@@ body
+        let ghost ev = self.xml.events();
+        let ghost p0 = self.xml.pos() as int;
+        let ghost cx = ShCtx { strings: self.strings@, formats: self.formats@, is_1904: self.is_1904 };
+        let ghost tot = next_scan(ev, p0, Cur { row: self.row_index as int, col: self.col_index as int }, cx);
+        let ghost good = tot.ok && is_unprefixed(ev) && no_cdata(ev, p0, tot.end);
+        proof {
+            axiom_bytelits();
+            assert(n_row().len() != n_c().len() && n_row().len() != n_sheetdata().len() && n_c().len() != n_sheetdata().len());
+            assert(n_v()[0] != n_f()[0] && n_v().len() != n_is().len() && n_f().len() != n_is().len());
+            if tot.ok { lemma_next_end(ev, p0, Cur { row: self.row_index as int, col: self.col_index as int }, cx); }
+        }
+//@@ loop 0
+            invariant
+                ev == old(self).xml.events(), p0 == old(self).xml.pos(), self.xml.events() == ev, self.xml.pos() >= p0,
+                self.strings@ == old(self).strings@, self.formats@ == old(self).formats@, self.is_1904 == old(self).is_1904,
+                cx == (ShCtx { strings: old(self).strings@, formats: old(self).formats@, is_1904: old(self).is_1904 }),
+                tot == next_scan(ev, p0, Cur { row: old(self).row_index as int, col: old(self).col_index as int }, cx),
+                good == (tot.ok && is_unprefixed(ev) && no_cdata(ev, p0, tot.end)),
+                b"row"@ == n_row(), b"c"@ == n_c(), b"sheetData"@ == n_sheetdata(), b"r"@ == n_r(),
+                b"v"@ == n_v(), b"is"@ == n_is(), b"f"@ == n_f(),
+                !(n_v() =~= n_f()), !(n_v() =~= n_is()), !(n_is() =~= n_f()),
+                !(n_row() =~= n_c()), !(n_row() =~= n_sheetdata()), !(n_c() =~= n_sheetdata()),
+                good ==> next_scan(ev, self.xml.pos() as int, Cur { row: self.row_index as int, col: self.col_index as int }, cx) == tot,
+            decreases self.xml.left(),
+//@@ before /match self\.xml\.read_event_into\(&mut self\.buf\)/
+            let ghost gp = self.xml.pos() as int;
+            let ghost cur0 = Cur { row: self.row_index as int, col: self.col_index as int };
+            proof { if good { lemma_next_end(ev, gp, cur0, cx); } }
+//@@ before /let row = get_row\(range\)\?;/
+                        proof { if good { reveal(row_of); } }
+//@@ before /let \(row, col\) = get_row_column\(range\)\?;/
+                        proof { if good { reveal(cell_of); } }
+//@@ before /let mut value = DataRef::Empty;/
+                    let ghost cattrs = ev[gp].attrs;
+                    let ghost ctot = cell_scan(ev, gp + 1, cattrs, DV::Empty, false, cx);
+                    let ghost mut seen = false;
+                    proof {
+                        assert(gp < ev.len() && ev[gp].kind is Start && c_element.ev() == ev[gp] && c_element.ev().local() =~= n_c());
+                        if good { lemma_cell_end(ev, gp + 1, cattrs, DV::Empty, false, cx); }
+                    }
+//@@ loop 1
+                        invariant_except_break
+                            good ==> cell_scan(ev, self.xml.pos() as int, cattrs, dv(value), seen, cx) == ctot,
+                            good ==> (!seen ==> value is Empty),
+                        invariant
+                            ev == old(self).xml.events(), p0 == old(self).xml.pos(), self.xml.events() == ev, self.xml.pos() > gp, gp >= p0, gp < ev.len(),
+                            self.strings@ == old(self).strings@, self.formats@ == old(self).formats@, self.is_1904 == old(self).is_1904,
+                            cx == (ShCtx { strings: old(self).strings@, formats: old(self).formats@, is_1904: old(self).is_1904 }),
+                            good == (tot.ok && is_unprefixed(ev) && no_cdata(ev, p0, tot.end)),
+                            tot == next_scan(ev, p0, Cur { row: old(self).row_index as int, col: old(self).col_index as int }, cx),
+                            cattrs == c_element.ev().attrs,
+                            b"c"@ == n_c(), b"v"@ == n_v(), b"is"@ == n_is(), b"f"@ == n_f(),
+                            !(n_v() =~= n_f()), !(n_v() =~= n_is()), !(n_is() =~= n_f()),
+                            good ==> ctot.ok && gp < ctot.end && ctot.end == tot.end && tot.end < ev.len(),
+                            good ==> tot.cell == Some(((pos.0 as int, pos.1 as int), ctot.val)) && tot.cur == (Cur { row: self.row_index as int, col: pos.1 + 1 }),
+                            self.col_index == pos.1,
+                        ensures
+                            good ==> dv(value) == ctot.val && self.xml.pos() == ctot.end + 1,
+                        decreases self.xml.left(),
+//@@ before /match self\.xml\.read_event_into\(&mut self\.cell_buf\)/
+                        let ghost ipos = self.xml.pos() as int;
+                        let ghost val0 = dv(value);
+                        proof { if good { lemma_cell_end(ev, ipos, cattrs, val0, seen, cx); assert(ipos < ev.len()); assert(!(ev[ipos].kind is Error)); } }
+//@@ after /_ => \(\),\s*\}/#0of2
+                        proof {
+                            if good {
+                                let ce = ev[ipos];
+                                if ce.kind is Start {
+                                    assert(cell_scan(ev, self.xml.pos() as int, cattrs, dv(value), seen, cx) == ctot);
+                                } else if ce.kind is End {
+                                    assert(false);
+                                } else {
+                                    assert(self.xml.pos() == ipos + 1);
+                                    assert(dv(value) == val0);
+                                    assert(cell_scan(ev, ipos, cattrs, val0, seen, cx) == cell_scan(ev, ipos + 1, cattrs, val0, seen, cx));
+                                }
+                            }
+                        }
+//@@ before /value = read_value\(/
+                                proof {
+                                    if good {
+                                        let ce = ev[ipos];
+                                        assert(ce.kind is Start && e.ev() == ce);
+                                        assert(cell_scan(ev, ipos, cattrs, val0, seen, cx) == ctot);
+                                        if ce.local() =~= n_v() {
+                                            let tx = txt_scan(ev, ipos + 1, ce.name, Seq::empty());
+                                            let ty = typed_dv(cattrs, tx.text, cx.strings, cx.formats, cx.is_1904);
+                                            assert(!seen && tx.ok && ty is Some && ipos < tx.end);
+                                            assert(cell_scan(ev, tx.end + 1, cattrs, ty->Some_0, true, cx) == ctot);
+                                            lemma_cell_end(ev, tx.end + 1, cattrs, ty->Some_0, true, cx);
+                                            assert(no_cdata(ev, ipos + 1, tx.end));
+                                        } else if ce.local() =~= n_is() {
+                                            let it = rst_item(ev, ipos + 1, ce.name);
+                                            assert(!seen && it.ok && ipos < it.end);
+                                            assert(cell_scan(ev, it.end + 1, cattrs, inline_dv(it.text), true, cx) == ctot);
+                                            lemma_cell_end(ev, it.end + 1, cattrs, inline_dv(it.text), true, cx);
+                                            assert(unprefixed(ce.name));
+                                            assert(no_cdata(ev, ipos + 1, it.end));
+                                        } else if ce.local() =~= n_f() {
+                                            let k = rte_stop(ev, ipos + 1, ce.name, 0);
+                                            assert(!seen && ipos < k < ev.len() && ev[k].kind is End);
+                                            assert(cell_scan(ev, k + 1, cattrs, val0, seen, cx) == ctot);
+                                            lemma_cell_end(ev, k + 1, cattrs, val0, seen, cx);
+                                            assert(val0 is Empty);
+                                        } else { assert(false); }
+                                    }
+                                }
+//@@ after /c_element,\s*\)\?/
+;
+                                proof {
+                                    if good {
+                                        let ce = ev[ipos];
+                                        if ce.local() =~= n_v() {
+                                            let tx = txt_scan(ev, ipos + 1, ce.name, Seq::empty());
+                                            let ty = typed_dv(cattrs, tx.text, cx.strings, cx.formats, cx.is_1904);
+                                            assert(dv(value) == ty->Some_0 && self.xml.pos() == tx.end + 1);
+                                        } else if ce.local() =~= n_is() {
+                                            let it = rst_item(ev, ipos + 1, ce.name);
+                                            assert(dv(value) == inline_dv(it.text) && self.xml.pos() == it.end + 1);
+                                        } else {
+                                            let k = rte_stop(ev, ipos + 1, ce.name, 0);
+                                            assert(value is Empty && self.xml.pos() == k + 1);
+                                        }
+                                        if !(ce.local() =~= n_f()) { seen = true; }
+                                        if ce.local() =~= n_v() { assert(cell_scan(ev, self.xml.pos() as int, cattrs, dv(value), seen, cx) == ctot); }
+                                        else if ce.local() =~= n_is() { assert(cell_scan(ev, self.xml.pos() as int, cattrs, dv(value), seen, cx) == ctot); }
+                                        else { assert(dv(value) == val0); assert(cell_scan(ev, self.xml.pos() as int, cattrs, dv(value), seen, cx) == ctot); }
+                                    }
+                                }
+//@@ end
+//@@ endimpl
 } // verus!
 fn main() {}
